@@ -239,8 +239,10 @@ func libRun(c scriptCase, dbg interpreter.Debugger) (err error, unlockAfter, loc
 		tx.Inputs[ix].PreviousTxSatoshis = amount + staleDelta
 	}
 	// caller-owned buffers
-	lockBuf := append([]byte(nil), c.Lock...)
-	unlockBuf := append([]byte(nil), c.Unlock...)
+	lockBuf := make([]byte, len(c.Lock)) // exactly as long as the script: nothing behind its last push
+	copy(lockBuf, c.Lock)
+	unlockBuf := make([]byte, len(c.Unlock))
+	copy(unlockBuf, c.Unlock)
 	tx.Inputs[ix].UnlockingScript = libScriptNoCopy(unlockBuf)
 	prev := &bt.Output{Satoshis: amount, LockingScript: libScriptNoCopy(lockBuf)}
 	txBefore = tx.Bytes()
@@ -345,6 +347,13 @@ func lockstep(c scriptCase, sig scriptref.SigCheck) (lr lockstepResult) {
 				fmt.Sprintf("after instruction %d (opcode 0x%02x, script %d) the alt stack is %s, BSV rules give %s", i, rs.Op, rs.Script, fmtStack(ls.Alt), fmtStack(rs.Alt))))
 			return
 		}
+	}
+	// an instruction the rules fail is never executed to completion: the library must not have
+	// gone on past the point where the reference stops (whatever its final verdict is)
+	if !ref.OK && len(rec.steps) > len(ref.Steps) {
+		lr.fs = append(lr.fs, rep.F(fmt.Sprintf("steps|executes-past-failure|node=%s|%s", ref.Err, e),
+			fmt.Sprintf("the BSV rules fail with %s after %d completed instructions; the interpreter completed %d", ref.Err, len(ref.Steps), len(rec.steps))))
+		return
 	}
 	if (err == nil) != ref.OK {
 		if err == nil {
